@@ -332,3 +332,34 @@ MANIFEST_TEXT = {
         "level_note": "os.Exit is a stub; at-exit assertions of the Fatal harness cannot be replayed natively and are reported INCONCLUSIVE if they ever fail; the 256 level texts are enumerated (strconv digits are executed concretely).",
     },
 }
+
+
+# Harness file sets: each check overlays only the harness files it needs (gosym -harness-files),
+# so that an internal signature change that breaks ONE property's harness cannot break the others.
+_Z = r"^internal/zzverif/[^/]*\.go$"
+_BASE = _Z + r"|^_root/zz_verif_(common|json|export|c01[a-z_]*)\.go$"
+_CBOR = _Z + r"|^internal/cbor/"
+_DIODE = _Z + r"|^diode/"
+HARNESS_FILES = {
+    "C01": {"json": _BASE},
+    "C02": {"json": _BASE + r"|^_root/zz_verif_c02n?\.go$", "net": _BASE + r"|^_root/zz_verif_c02n?\.go$"},
+    "C03": {"json": _BASE + r"|^_root/zz_verif_c03\.go$"},
+    "C04": {"json": _BASE + r"|^_root/zz_verif_c04\.go$"},
+    "C05": {"json": _BASE + r"|^_root/zz_verif_c0[35]\.go$"},
+    "C06": {"json": _BASE + r"|^_root/zz_verif_c(06|16)\.go$"},
+    "C08": {"cbor": _CBOR, "wiring": _BASE},
+    "C09": {"prim": _CBOR, "event": _BASE},
+    "C10": {"diode": _DIODE}, "C11": {"diode": _DIODE}, "C12": {"diode": _DIODE},
+    "C13": {"int": _BASE + r"|^_root/zz_verif_c13\.go$", "bv": _BASE + r"|^_root/zz_verif_c13\.go$"},
+    "C14": {"json": _BASE + r"|^_root/zz_verif_c14\.go$"},
+    "C15": {"json": _BASE + r"|^_root/zz_verif_c15\.go$"},
+    "C16": {"json": _BASE + r"|^_root/zz_verif_c16\.go$"},
+    "C17": {"cbor": _CBOR},
+    "C18": {"hlog": _Z + r"|^hlog/|^_root/zz_verif_export\.go$"},
+    "C19": {"user": _Z + r"|^internal/zzverif/c19/"},
+}
+for _pid, _groups in HARNESS_FILES.items():
+    for _g in PROPS[_pid]["groups"]:
+        if _g["name"] not in _groups:
+            raise SystemExit("props.py: no harness file set for %s/%s" % (_pid, _g["name"]))
+        _g.setdefault("flags", {})["harness-files"] = _groups[_g["name"]]
